@@ -70,14 +70,15 @@ claim('C06', 'proof',
       'overrides and sorting are covered by the bounded tier (all pairs/triples of a value pool).',
       'contract-based deductive verification (pyvc relational obligations) + bounded stand-in', 'DESIGN.md 5/C06')
 claim('C16', 'proof',
-      'Monitor reasoning on the in-memory study: in `create_trial` and `_complete_trial` every access to the bookkeeping fields happens with the study lock '
-      'held and inside ONE critical section (id allocation, the single proposal call and the append are atomic); each section preserves the study invariant '
-      '(ids are 1..len(trials), PENDING+COMPLETED == len(trials), len <= max_num_trials, best trial feasible) from any state satisfying it; create_trial '
-      'refuses exactly when the budget is exhausted; the best trial after completion has maximal reward and an infeasible trial never becomes best; no other '
-      'method writes the guarded fields. Proved sequentially per critical section, hence valid under every schedule (lock = mutual exclusion).',
-      'NARROW: exactly-once delivery to worker groups, same-group sharing of the pending trial and exactly-once feedback depend on check-then-act sequences '
-      'outside any monitor (`next`, `done`/`skip` status test) and on the unlocked get-or-create of the named study; contracts cannot enumerate schedules, so '
-      'these parts are covered only by the bounded stress driver (sampled schedules) and are NOT decided. Trusted: engine, threading.Lock mutual exclusion.',
+      'Monitor reasoning on the in-memory study: `create_trial`, `get_or_create_trial`, `_complete_trial` and `_mark_completed` access the bookkeeping '
+      'fields (and the trial status) only with the study lock held and inside ONE critical section; id allocation, the single proposal call and the append are '
+      'atomic; the pending trial of a group is handed out again or exactly one new trial is created in the same section; the PENDING -> COMPLETED transition is a '
+      'test-and-set (exactly one of two racing finishers reports a trial); each section preserves the study invariant (ids 1..len(trials), PENDING+COMPLETED '
+      '== len(trials), len <= max_num_trials, best trial feasible and of maximal reward) from any state satisfying it; no other method writes the guarded '
+      'fields. Proved sequentially per critical section, hence valid under every schedule (lock = mutual exclusion).',
+      'Trusted: engine, threading.Lock mutual exclusion. What happens BETWEEN critical sections (delivery of the returned trial to the worker, the algorithm\'s own '
+      'state under its own lock, early stopping) is not decided by contracts; it is covered by the bounded stress driver, which samples schedules and is '
+      'labelled as such.',
       'contract-based deductive verification (pyvc: guarded-by + monitor-invariant obligations) + bounded stress sampling', 'DESIGN.md 5/C16')
 claim('C14', 'proof',
       'Selectors: `compute_num_output` returns the documented count (n, ceil(n*len) within [0, len], or len); `First`/`Last` return exactly the first/last '
